@@ -115,7 +115,11 @@ def handle (req : Json) : Json :=
     let fresh0 := (req.getObjValAs? Nat "fresh").toOption.getD 0
     let env : Env := ⟨lookupD [] lists, lookupD none singles, lookupD 0 ints⟩
     let cbs : Callbacks := lookupD (999, .notCallable) cbl
-    let (res, w1) := construct spec env cbs ⟨[], fresh0⟩
+    -- `repeat`: the same constructor call made again with the very same callback objects
+    let reps := (req.getObjValAs? Nat "repeat").toOption.getD 1
+    let (res, w1) := (List.range reps).foldl
+      (fun (acc : Except Err Node × World) _ => construct spec env cbs acc.2)
+      ((.error .other : Except Err Node), (⟨[], fresh0⟩ : World))
     let (resJ, w2) := match res with
       | .ok node => (Json.mkObj [("ok", toJson node.outVariadic)], runSteps extra node steps w1)
       | .error e => (Json.mkObj [("err", errName e)], w1)
